@@ -7,10 +7,18 @@
    same array, beyond capacity moves to a fresh array and leaves every existing array as it was;
    map store / lookup / delete laws with missing and unhashable keys reading as nil; an out-of-range
    or non-numeric index and an unhashable key on store are errors that leave the store unchanged.
-   Typed containers (make, typed literals) and struct fields are outside this model: ./check C10
-   compares those, and everything above, with the same operations performed natively in Go. *)
+   Typed containers (make, typed literals, map[K]V) and struct values made with make have a model of their
+   own (Conv/Typed.v: every store goes through the conversion routine of Conv/Convert.v): whatever the
+   history, every cell holds a value of its declared type; a store that cannot convert fails and leaves
+   the container as it was; a cell reads back the converted value last stored in it and other cells
+   keep theirs; an unknown field is an error.  The model covers element / key / field types bool, the
+   integer types, string, interface{} and slices of these, and the script values nil, bool, int64,
+   string and lists (no floats, no nested stores such as v.L[0] = x): ./check C10 runs it on generated
+   histories (entry c10t) and compares all typed histories, including floats and nested stores, with
+   native Go values. *)
 From Coq Require Import String List ZArith Bool Arith Lia.
 From Anko Require Import Base.Assoc Interp.Ast Interp.Value Interp.ToX Interp.Equal Interp.Model Interp.ContainerProofs.
+From Anko Require Conv.Convert Conv.Typed Conv.TypedProofs.
 Import ListNotations.
 
 (* reads *)
@@ -98,8 +106,58 @@ Example sharing_history :
   /\ slice_elems (array_set st1 0 3 (VInt 7)) 0 0 4 = [VInt 1; VInt 9; VInt 3; VInt 7].
 Proof. repeat split. Qed.
 
+(* ---- typed containers and struct fields (Conv/Typed.v) ---- *)
+Theorem typed_containers_only_hold_their_declared_type : forall c ops,
+  Typed.well_typed c -> Typed.well_typed (fst (Typed.trun c ops)).
+Proof. exact TypedProofs.every_reachable_container_is_well_typed. Qed.
+
+Theorem a_failing_typed_store_leaves_the_old_content : forall c o,
+  snd (Typed.tstep c o) = Typed.XErr -> fst (Typed.tstep c o) = c.
+Proof. exact TypedProofs.error_leaves_the_container. Qed.
+
+Theorem typed_element_reads_back_what_was_stored : forall e l i v x,
+  (0 <= i <= Z.of_nat (List.length l))%Z -> Convert.conv v e = Some x ->
+  exists l', Typed.tstep (Typed.KSlice e l) (Typed.OStore i v) = (Typed.KSlice e l', Typed.XCont (Typed.KSlice e l'))
+    /\ Typed.tstep (Typed.KSlice e l') (Typed.ORead i) = (Typed.KSlice e l', Typed.XVal x)
+    /\ (forall j, j <> Z.to_nat i -> j < List.length l -> nth_error l' j = nth_error l j)
+    /\ List.length l' = (if (i =? Z.of_nat (List.length l))%Z then S (List.length l) else List.length l).
+Proof. exact TypedProofs.slice_store_then_read. Qed.
+
+Theorem typed_map_entry_reads_back_what_was_stored : forall kt et m k v k' v',
+  TypedProofs.keyable kt -> Convert.conv k kt = Some k' -> Convert.conv v et = Some v' ->
+  Typed.tstep (Typed.KMap kt et m) (Typed.OMapStore k v) = (Typed.KMap kt et (Typed.m_set m k' v'), Typed.XCont (Typed.KMap kt et (Typed.m_set m k' v')))
+  /\ Typed.tstep (Typed.KMap kt et (Typed.m_set m k' v')) (Typed.OMapRead k) = (Typed.KMap kt et (Typed.m_set m k' v'), Typed.XVal v')
+  /\ forall k2, Typed.key_eqb k' k2 = false -> Typed.m_get (Typed.m_set m k' v') k2 = Typed.m_get m k2.
+Proof. exact TypedProofs.map_store_then_read. Qed.
+
+Theorem a_field_reads_back_what_was_last_stored : forall fs f t v0 v x,
+  Typed.f_get fs f = Some (t, v0) -> Convert.conv v t = Some x ->
+  Typed.tstep (Typed.KStruct fs) (Typed.OFieldStore f v) = (Typed.KStruct (Typed.f_set fs f x), Typed.XVal x)
+  /\ Typed.tstep (Typed.KStruct (Typed.f_set fs f x)) (Typed.OFieldRead f) = (Typed.KStruct (Typed.f_set fs f x), Typed.XVal x)
+  /\ forall g, f <> g -> Typed.f_get (Typed.f_set fs f x) g = Typed.f_get fs g.
+Proof. exact TypedProofs.field_store_then_read. Qed.
+
+Theorem an_unknown_field_is_an_error : forall fs f v, Typed.f_get fs f = None ->
+  Typed.tstep (Typed.KStruct fs) (Typed.OFieldStore f v) = (Typed.KStruct fs, Typed.XErr)
+  /\ Typed.tstep (Typed.KStruct fs) (Typed.OFieldRead f) = (Typed.KStruct fs, Typed.XErr).
+Proof. exact TypedProofs.unknown_field_is_an_error. Qed.
+
+(* the hypotheses are met: a []int8 takes 300 as 44, refuses a string and keeps its content *)
+Example typed_somewhere :
+  let c := Typed.KSlice (Convert.TInt "int8" true 8%Z) [Convert.VInt "int8" true 8%Z 0%Z] in
+  Typed.well_typed c
+  /\ Typed.trun c [Typed.OStore 0%Z (Convert.SInt 300%Z); Typed.OStore 0%Z (Convert.SStr [120%Z; 121%Z]); Typed.ORead 0%Z]
+     = (Typed.KSlice (Convert.TInt "int8" true 8%Z) [Convert.VInt "int8" true 8%Z 44%Z],
+        [Typed.XCont (Typed.KSlice (Convert.TInt "int8" true 8%Z) [Convert.VInt "int8" true 8%Z 44%Z]); Typed.XErr; Typed.XVal (Convert.VInt "int8" true 8%Z 44%Z)]).
+Proof. split; [repeat constructor | vm_compute; reflexivity]. Qed.
+
 Print Assumptions views_of_one_array_share_storage.
 Print Assumptions append_beyond_capacity_moves_to_a_fresh_array.
 Print Assumptions index_store_out_of_range_changes_nothing.
 Print Assumptions maps_never_hold_a_key_twice.
 Print Assumptions unhashable_key_store_is_an_error_and_changes_nothing.
+Print Assumptions typed_containers_only_hold_their_declared_type.
+Print Assumptions a_failing_typed_store_leaves_the_old_content.
+Print Assumptions typed_element_reads_back_what_was_stored.
+Print Assumptions typed_map_entry_reads_back_what_was_stored.
+Print Assumptions a_field_reads_back_what_was_last_stored.
